@@ -23,6 +23,7 @@ func main() {
 	lo := fs.Int("lo", 1, "quorum driver: first validator count")
 	hi := fs.Int("hi", 65535, "quorum driver: last validator count")
 	in := fs.String("in", "", "script driver: file with one JSON behaviour per line")
+	pair := fs.Int64("pair", 0, "script driver: run every behaviour twice, the second clock ahead by this much, and write Pair lines (C14)")
 	out := fs.String("out", "/dev/stdout", "ndjson trace file")
 	_ = fs.Parse(os.Args[2:])
 	w := NewTraceWriter(*out)
@@ -53,7 +54,7 @@ func main() {
 	case "payload":
 		runPayload(w, *seed, *full)
 	case "script":
-		runScript(w, *in, *from, *runs)
+		runScript(w, *in, *from, *runs, *pair)
 	case "quorum":
 		runQuorum(w, *full, *lo, *hi)
 	case "open":
